@@ -182,9 +182,12 @@ def run_batch(a):
                 r = common.run([drv, "gen", os.path.join(root, "cfg.json")], cwd=root, timeout=120)
             else:
                 r = common.cli_generate(cli, project=os.path.join(root, "src"), out=os.path.join(root, "out"), mode=mode, cwd=root, timeout=120)
+            counts["files_reported_unparsable"] += r.err.count("Failed to parse")
+            counts["files_given"] += len(files)
             return classify_run(r), r
         finally:
             common.rmtree(root)
+    counts = {"files_reported_unparsable": 0, "files_given": 0}
     bad = []
     stack = [items]
     runs = 0
@@ -200,7 +203,7 @@ def run_batch(a):
             mid = len(sub) // 2
             stack.append(sub[:mid])
             stack.append(sub[mid:])
-    return {"bad": bad, "n": len(items), "runs": runs}
+    return {"bad": bad, "n": len(items), "runs": runs, "counts": counts}
 
 
 def run_isolation(a):
@@ -335,6 +338,8 @@ def run(tier):
         v.evaluations += r["n"]
         v.count("inputs_" + kind, r["n"])
         v.count("process_runs", r["runs"])
+        v.count("source_files_given_" + kind, r["counts"]["files_given"])
+        v.count("source_files_the_tool_reported_as_unparsable_" + kind, r["counts"]["files_reported_unparsable"])
         for (label, cls, err, files) in r["bad"]:
             if cls == "timeout":
                 v.inconclusive.append("watchdog on %s" % label)
